@@ -232,15 +232,27 @@ Section Weather.
   (* ---------------------------------------------------------------- *)
   (* Optional columns of the per-year layout: VERD (saturation deficit), SUND (sunshine hours) and, since F34,
      ETNULL (reference evapotranspiration).  replaceMissingValues treats each of them with the very clauses of TMP
-     (SUND has one more: a sentinel that is left over becomes 0).  One column of one year file is modelled by the
+     (SUND has one more: a sentinel that is left over becomes 0, see sund_pass).  One column of one year file is modelled by the
      pass itself, run on a one-year store that carries the column in the average-temperature field. *)
   Definition lift_col (v : T) : wrec := set_tavg wzero v.
   Definition col_slot (vals : list T) : slot :=
     mkslot 0 (map lift_col vals ++ repeat wzero (366 - length vals)) (Z.of_nat (length vals)).
   Definition opt_year (none : T) (vals : list T) : list T :=
     map w_tavg (firstn (length vals) (s_cells (slot_at (replace_missing none 1 [col_slot vals]) 0))).
-  Definition sund_year (none : T) (vals : list T) : list T :=
-    map (fun v => if eqb v none then zero else v) (opt_year none vals).
+  (* SUND: the same clauses plus "a sentinel that is left becomes 0", all IN PLACE and in file order: when the next day is
+     looked at, its predecessor has already been processed (an unfilled sentinel is 0 by then), its successor is still raw *)
+  Fixpoint sund_pass (none : T) (prev : option T) (l : list T) : list T :=
+    match l with
+    | [] => []
+    | v :: rest =>
+        let v1 := match prev, rest with
+                  | Some p, n :: _ => if eqb v none && negb (eqb p none) && negb (eqb n none) then div (add p n) two else v
+                  | _, _ => if eqb v none then zero else v
+                  end in
+        let v2 := if eqb v1 none then zero else v1 in
+        v2 :: sund_pass none (Some v2) rest
+    end.
+  Definition sund_year (none : T) (vals : list T) : list T := sund_pass none None vals.
 
 End Weather.
 
